@@ -701,8 +701,11 @@ class PendingAssign(PendingNode[Assign | AnnAssign]):
         else:
             assign_targets = self.node.targets
 
-        if len(assign_targets) > 1:
+        if len(assign_targets) > 1 or isinstance(
+            assign_targets[0], (Attribute, Subscript)
+        ):
             # a = b = value: the value is evaluated once
+            # obj.attr = value: the value is evaluated before obj
             tmp_value_name = Name(id=ol_name(OL_ASSIGN_TMP))
             return_list.append(NamedExpr(target=tmp_value_name, value=assign_value))
             assign_value = tmp_value_name
